@@ -429,11 +429,13 @@ Definition st_lock (s : state) (t : nat) : option state :=
         Some (match kw with Some w => set_kicked w true s1 | None => s1 end)
       end
     | APut SBefore =>
-      (* iv_work_pool_put.  API contract: not while work submitted by a foreign thread is queued and the pool has
-         no thread (iv_work_pool_put / iv_work_event look at started_threads and work_done only: the pool would be
-         freed with the item still queued, before the owner has served thread_needed) *)
-      if Nat.eqb t (own s) && (nilb (pitems p) || (0 <? pstarted p)) then
-        if pstarted p =? 0 then Some (enter t [] (p_set_shut true p) (set_act1 t (APut SPost) s))
+      (* iv_work_pool_put (after fix D10, /repo commit eb5cf18): with no thread started and work queued (a foreign
+         submitter found the pool without threads and only posted thread_needed) a thread is started under the lock,
+         like in the owner's submit, and pool->ev is not posted; with nothing queued pool->ev is posted after the unlock *)
+      if Nat.eqb t (own s) then
+        if pstarted p =? 0 then
+          if nilb (pitems p) then Some (enter t [] (p_set_shut true p) (set_act1 t (APut SPost) s))
+          else Some (enter t [FCreate] (p_set_started (pstarted p + 1) (p_set_shut true p)) (set_act1 t (APut SIn) s))
         else Some (enter t (map FPostW (pidle p)) (p_set_shut true p) (set_act1 t (APut SIn) s))
       else None
     | ANone =>
